@@ -37,6 +37,7 @@ func TestC08(t *testing.T) {
 			Ev.Probe("file_several_times_the_4MiB_window_with_shifting_edit")
 		}
 		identical := rapid.IntRange(0, 5).Draw(rt, "identical") == 0
+		movedZ := false
 		if identical {
 			if rapid.Bool().Draw(rt, "collisions") {
 				// blocks that share a weak hash inside one build: near-duplicates (+1,-2,+1), an empty
@@ -57,6 +58,17 @@ func TestC08(t *testing.T) {
 					}
 				}
 				pair.Old["col/fill.bin"] = &Entry{Kind: KFile, Data: fill}
+				// a file whose FIRST block is the only block of the build with weak hash 0 (apart from
+				// the placeholder of the empty file), followed by a short high-entropy tail
+				pair.Old["col/one.bin"] = &Entry{Kind: KFile, Data: append(append([]byte{}, fill[:BlockSize]...), Bytes(9, 100)...)}
+				if fill[0] != 0 {
+					delete(pair.Old, "col/fill.bin")
+				}
+				// a short block and a full block with one weak hash, the short one listed first; the
+				// file with the full block goes by another name in the new build
+				pair.Old["col/0short.bin"] = &Entry{Kind: KFile, Data: make([]byte, 100)}
+				pair.Old["col/zfull.bin"] = &Entry{Kind: KFile, Data: make([]byte, BlockSize+rapid.SampledFrom([]int{0, 100}).Draw(rt, "zfulltail"))}
+				movedZ = rapid.Bool().Draw(rt, "zfullmoved")
 				pair.Old.Normalize()
 				Ev.Probe("identical_builds_with_weak_hash_collisions_inside")
 			}
@@ -64,6 +76,12 @@ func TestC08(t *testing.T) {
 			pair.Meta = map[string]FileMeta{}
 			for _, p := range pair.New.Files() {
 				pair.Meta[p] = FileMeta{From: p, Identical: true, Op: "keep"}
+			}
+			if movedZ {
+				pair.New["col/zmoved.bin"] = pair.New["col/zfull.bin"]
+				delete(pair.New, "col/zfull.bin")
+				delete(pair.Meta, "col/zfull.bin")
+				pair.Meta["col/zmoved.bin"] = FileMeta{From: "col/zfull.bin", Identical: true, Op: "rename"}
 			}
 		}
 		comp := GenCompression(rt)
